@@ -102,6 +102,9 @@ func recoverFile(info types.SegmentInfo, wf types.WritableFile, bufPool *sync.Po
 func (w *Writer) initEmpty() error {
 	// Write header into write buffer to be written out with the first commit.
 	w.writer.writeOffset = 0
+	// Nothing is committed so the segment can't be sealed, even if recovery saw
+	// an index frame from a torn batch.
+	w.writer.indexStart = 0
 	w.ensureBufCap(fileHeaderLen)
 	w.writer.commitBuf = w.writer.commitBuf[:fileHeaderLen]
 
@@ -176,6 +179,11 @@ func (w *Writer) recoverTail() error {
 
 	// Whichever path we take, fix up the commitIdx before we leave
 	defer func() {
+		if w.writer.indexStart >= uint64(w.writer.writeOffset) {
+			// The index frame we saw belongs to a batch that was not accepted (its
+			// commit is missing or torn) so this segment is not sealed.
+			w.writer.indexStart = 0
+		}
 		ofs := w.getOffsets()
 		if len(ofs) > 0 {
 			// Non atomic is OK because this file is not visible to any other threads
